@@ -257,6 +257,51 @@ def ob_codes_read(F, parent, fn, sites):
     return False, "no dominating `codes_read != c_lengths_combined` test found before Ok"
 
 
+def ob_codes_read_sized(F, parent, fn, sites):
+    """codes-read, plus: the two predicted length vectors handed to predict_ld_trees are brought to exactly the declared
+    counts — `resize(declared, 0)`, unconditionally or under `len != declared` only (a grow-only resize leaves a longer
+    prediction in place and the assertion on the total fires)."""
+    ok, why = ob_codes_read(F, parent, fn, sites)
+    if not ok:
+        return ok, why
+    b = F.bodies.get(P + "tree_predictor::predict_tree_for_block")
+    if b is None:
+        return False, "predict_tree_for_block not found"
+    sinks = [bb for bb, t in b.calls() if strip_generics(callee_def(t)).endswith("tree_predictor::predict_ld_trees")]
+    got = {}
+    for rb, t in b.calls():
+        if not strip_generics(callee_def(t)).endswith("Vec::resize") or len(t["args"]) != 3:
+            continue
+        v, n, z = (flow.describe(b, a, names=True) for a in t["args"])
+        m = re.search(r"\.(num_literals|num_dist)$", n)
+        if not m or z != "K0":
+            continue
+        if sinks and all(b.dominates(rb, x) for x in sinks):
+            got[m.group(1)] = "unconditional"
+            continue
+        guards = []
+        for sb in sorted(b.normal_blocks()):
+            st = b.term(sb)
+            if st["k"] != "switch" or st.get("exp") or len(st["targets"]) != 1:
+                continue
+            for e in (st["otherwise"], st["targets"][0][1]):
+                if b.edge_dominates(sb, e, rb):
+                    guards.append((sb, e, flow.describe(b, st["d"], names=True)))
+        want_ne, want_eq = "Ne(len(%s), %s)" % (v, n), "Eq(len(%s), %s)" % (v, n)
+        mine = [(sb, e, d) for sb, e, d in guards if d in (want_ne, want_eq)]
+        good = False
+        for sb, e, d in mine:
+            st = b.term(sb)
+            ne_edge = st["otherwise"] if d == want_ne else st["targets"][0][1]
+            inner = [g for g in guards if g[0] != sb and b.dominates(sb, g[0])]
+            if e == ne_edge and not inner:
+                good = True
+        if good:
+            got[m.group(1)] = "when len != declared"
+    missing = [k for k in ("num_literals", "num_dist") if k not in got]
+    return (not missing and bool(sinks)), (why + "; predicted vectors resized to the declared counts: %s" % got) if not missing else "no exact resize to the declared count for %s before predict_ld_trees" % missing
+
+
 def ob_update_length(F, parent, fn, sites):
     from . import ub
     return ub.update_length_bound(F, parent)
@@ -325,7 +370,7 @@ OBLIGATIONS = {
     "iterate-offset": ob_iterate_offset, "depth-estimator-variants": ob_depth_variants, "tree-code-not-Code": ob_tree_code,
     "none-holder-no-references": ob_none_holder, "X2:candidates-nonempty": ob_candidates_nonempty,
     "calc-huffman-codes-total": ob_calc_codes_total, "heap-nonempty": ob_heap_nonempty, "read-byte-after-flush": ob_read_byte,
-    "X2:codes-read": ob_codes_read, "update-length": ob_update_length, "slice4-to-array4": ob_slice4,
+    "X2:codes-read": ob_codes_read, "X2:codes-read+sized": ob_codes_read_sized, "update-length": ob_update_length, "slice4-to-array4": ob_slice4,
     "prefix-compare-args": ob_prefix_compare, "reshift-bound": ob_reshift_bound,
 }
 
